@@ -35,9 +35,24 @@ func WithCallback(cb string, pathItem *PathItem) NewCallbackOption {
 	}
 }
 
+// callbacksBeingValidatedKey is the context key of the set of callbacks whose validation is in progress.
+type callbacksBeingValidatedKey struct{}
+
 // Validate returns an error if Callback does not comply with the OpenAPI spec.
 func (callback *Callback) Validate(ctx context.Context, opts ...ValidationOption) error {
 	ctx = WithValidationOptions(ctx, opts...)
+
+	// An operation of a callback may declare the same callback again: it is validated once.
+	inProgress, _ := ctx.Value(callbacksBeingValidatedKey{}).(map[*Callback]struct{})
+	if _, ok := inProgress[callback]; ok {
+		return nil
+	}
+	nowInProgress := make(map[*Callback]struct{}, len(inProgress)+1)
+	for k := range inProgress {
+		nowInProgress[k] = struct{}{}
+	}
+	nowInProgress[callback] = struct{}{}
+	ctx = context.WithValue(ctx, callbacksBeingValidatedKey{}, nowInProgress)
 
 	keys := make([]string, 0, callback.Len())
 	for key := range callback.Map() {
